@@ -1,6 +1,9 @@
 package component
 
-import "io"
+import (
+	"errors"
+	"io"
+)
 
 var _ DataComponent = (*ChargedProjectiles)(nil)
 
@@ -15,7 +18,7 @@ func (ChargedProjectiles) ID() string {
 
 // ReadFrom implements DataComponent.
 func (c *ChargedProjectiles) ReadFrom(r io.Reader) (n int64, err error) {
-	panic("unimplemented")
+	return 0, errors.New("component: ReadFrom is not implemented")
 }
 
 // WriteTo implements DataComponent.
